@@ -33,6 +33,12 @@ def main(tier):
     prod = funcs.produce("drv_codec", argsets)
     funcs.san_failures(chk, prod, "codec")
     files = [p for p, n, rc, err in prod if n > 0]
+    # a slice of the same on a platform where plain char is unsigned (-funsigned-char: ARM / PowerPC Linux)
+    prod_u = funcs.produce("drv_codec", [[m, seed + 7 + k, 0, ns, st] for k, (m, st) in
+                                         enumerate([("short", 16 if q else 4), ("pairs", 64 if q else 16), ("long", 60 if q else 8),
+                                                    ("dec", 4 if q else 2)])], flavour="uchar")
+    funcs.san_failures(chk, prod_u, "codec-uchar")
+    files += [p for p, n, rc, err in prod_u if n > 0]
     _, dn = funcs.survey(chk, files, lambda ev: len(ev.get("in", ev.get("text", []))) >= 2 and ev.get("e") != "Dec")
     out = funcs.judge_files(chk, "TraceCodec", "TraceCodec_FALSE.cfg", files, "codec",
                             sigfn=lambda ev: "%s:%s:len%d:cap%s" % (ev.get("e"), ev.get("codec"), len(ev.get("in", ev.get("text", []))), ev.get("cap")))
